@@ -193,10 +193,13 @@ SCEN = {
                      Results=['ok']),
             small=[cfg(NJobs=1, Procs=1, MaxPid=3, MaxTime=3, MaxR=1, MaxT=2, Statuses=[1, 155],
                        Results=['ok']),
+                   # an acceptance resets the count even if the job has left the table meanwhile
+                   cfg(NJobs=1, Procs=1, MaxPid=3, MaxTime=1, MaxR=1, MaxT=2, Statuses=[1], Results=['ok'],
+                       UserCalls=['Discard']),
                    # three slots, several exits per supervision pass (slot index allocation)
                    cfg(NJobs=0, Procs=3, MaxPid=5, MaxTime=0, MaxR=0, Statuses=[1, 155], Results=['ok'])],
             walks=cfg(NJobs=2, Procs=2, MaxPid=7, MaxTime=6, MaxR=3, MaxT=3,
-                      Statuses=[1, 155, 0, -9])),
+                      Statuses=[1, 155, 0, -9], UserCalls=['Discard'])),
         thorough=dict(
             wide=cfg(NJobs=1, Procs=2, MaxPid=5, MaxTime=3, MaxR=2, MaxT=2, Statuses=[1, 155, 0],
                      Results=['ok']),
